@@ -159,7 +159,7 @@ voc_read_header	(SF_PRIVATE *psf)
 	char	creative [20] ;
 	unsigned char block_type, rate_byte ;
 	short	version, checksum, encoding, dataoffset ;
-	int		offset ;
+	int		offset, missing_terminator = SF_FALSE ;
 
 	/* Set position to start of file to begin reading header. */
 	offset = psf_binheader_readf (psf, "pb", 0, creative, SIGNED_SIZEOF (creative)) ;
@@ -249,7 +249,14 @@ voc_read_header	(SF_PRIVATE *psf)
 		psf_log_printf (psf, " Sound Data : %d\n  sr   : %d => %dHz\n  comp : %d\n",
 								size, rate_byte, psf->sf.samplerate, compression) ;
 
-		if (offset + size - 1 > psf->filelength)
+		if (offset + size - 1 == psf->filelength + 1)
+		{	/* Hack for reading files produced using
+			** sf_command (SFC_UPDATE_HEADER_NOW).
+			*/
+			psf_log_printf (psf, "Missing zero byte at end of file.\n") ;
+			missing_terminator = SF_TRUE ;
+			}
+		else if (offset + size - 1 > psf->filelength)
 		{	psf_log_printf (psf, "Seems to be a truncated file.\n") ;
 			psf_log_printf (psf, "offset: %d    size: %d    sum: %d    filelength: %D\n", offset, size, offset + size, psf->filelength) ;
 			return SFE_VOC_BAD_SECTIONS ;
@@ -261,7 +268,7 @@ voc_read_header	(SF_PRIVATE *psf)
 			} ;
 
 		psf->dataoffset = offset ;
-		psf->dataend	= psf->filelength - 1 ;
+		psf->dataend	= missing_terminator ? 0 : psf->filelength - 1 ;
 
 		psf->sf.channels = 1 ;
 		psf->bytewidth = 1 ;
@@ -312,7 +319,14 @@ voc_read_header	(SF_PRIVATE *psf)
 								"  comp   : %d\n", size, rate_byte, compression) ;
 
 
-		if (offset + size - 1 > psf->filelength)
+		if (offset + size - 1 == psf->filelength + 1)
+		{	/* Hack for reading files produced using
+			** sf_command (SFC_UPDATE_HEADER_NOW).
+			*/
+			psf_log_printf (psf, "Missing zero byte at end of file.\n") ;
+			missing_terminator = SF_TRUE ;
+			}
+		else if (offset + size - 1 > psf->filelength)
 		{	psf_log_printf (psf, "Seems to be a truncated file.\n") ;
 			psf_log_printf (psf, "offset: %d    size: %d    sum: %d    filelength: %D\n", offset, size, offset + size, psf->filelength) ;
 			return SFE_VOC_BAD_SECTIONS ;
@@ -324,7 +338,7 @@ voc_read_header	(SF_PRIVATE *psf)
 			} ;
 
 		psf->dataoffset = offset ;
-		psf->dataend = psf->filelength - 1 ;
+		psf->dataend = missing_terminator ? 0 : psf->filelength - 1 ;
 
 		psf->bytewidth = 1 ;
 
